@@ -79,6 +79,70 @@ def spot(a):
         sys.modules.pop(mod.__name__, None)
 
 
+def while_shut_down_leg(c, wd):
+    """register_tracepoint / unregister while the agent is shut down (between two lives): each call either does its work -
+    a handle is returned, the tracepoint acts in the next life, unregister removes it - or is refused and changes
+    nothing. A call that raises AND leaves a registration behind (no handle to remove it) is neither."""
+    import threading
+    import time
+    from .. import lifecycle_drv as LD
+    out = {}
+
+    def body():
+        sysm = LD.LifeSystem(wd, True, 'None', 'None')
+        problems = []
+        try:
+            base = sysm.path.rsplit('/', 1)[-1]
+            sysm.start()
+            sysm.deep.shutdown()
+            before = len(sysm.tps._custom)
+            handle, raised = None, None
+            try:
+                handle = sysm.deep.register_tracepoint(base, sysm.marks['beat'], {'fire_count': '-1', 'fire_period': '0',
+                                                                              'log_msg': 'registered {n}',
+                                                                              'snapshot': 'no_collect'}, [])
+            except BaseException as ex:
+                raised = ex
+            after = len(sysm.tps._custom)
+            if raised is not None and after != before:
+                problems.append('register_tracepoint() on a shut down agent raised %r AND left the registration behind: '
+                                'no handle exists to remove it' % (raised,))
+            if raised is None and handle is None:
+                problems.append('register_tracepoint() returned no handle')
+            sysm.start()
+            t0 = time.time()
+            while sysm.deep.task_handler._pending and time.time() - t0 < 5:
+                time.sleep(0.005)
+            ids = sorted({a.id for t in sysm.deep.trigger_handler._tp_config for a in t.actions})
+            regs = [i for i in ids if i != 'life']
+            if handle is not None and len(regs) != 1:
+                problems.append('a tracepoint registered while the agent was shut down is not acted on in the next life '
+                                '(installed: %s)' % ids)
+            if handle is None and regs:
+                problems.append('a refused registration is acted on in the next life (installed: %s)' % ids)
+            sysm.deep.shutdown()
+            if handle is not None:
+                try:
+                    handle.unregister()
+                except BaseException as ex:
+                    problems.append('unregister() on a shut down agent raised %r' % (ex,))
+                if len(sysm.tps._custom) != before:
+                    problems.append('unregister() on a shut down agent did not remove the registration')
+        finally:
+            sysm.close()
+        out['problems'] = problems
+    th = threading.Thread(target=body)
+    th.start()
+    th.join(90)
+    if 'problems' not in out:
+        raise tlc.MachineryError('while-shut-down case did not finish')
+    c.traces_validated += 1
+    c.note_case(key=('while-shut-down',), nontrivial=True)
+    if out['problems']:
+        p_ = c.save_replay({'kind': 'while-shut-down', 'problems': out['problems']})
+        c.violation('registration API used between two lives of the agent: %s' % out['problems'][:2], p_)
+
+
 def run(c):
     quick = c.tier == 'quick'
     wd = tlc.scratch('c13_')
@@ -98,6 +162,7 @@ def run(c):
                want=lambda names: names.count('Register') >= 2 and 'Unregister' in names)
     c12.concurrent_leg(c, c12.CONCURRENT_SCRIPTS[2:], 2 if quick else 3, 400 if quick else 6000)
     behavioural(c, wd)
+    while_shut_down_leg(c, wd)
 
 
 if __name__ == '__main__':
